@@ -457,3 +457,323 @@ Proof.
   - intros Hx. exists (Z.of_nat x). split; [apply Nat2Z.id|].
     eapply Permutation_in; [apply zsort_perm|]. apply in_map. exact Hx.
 Qed.
+
+(* ---------------------------------------------------------------- the reference, group by group *)
+Fixpoint blk {T} (B : Z -> nat -> nat -> list T) (rl : list (Z * nat)) (s : nat) : list T :=
+  match rl with
+  | [] => []
+  | p :: t => B (fst p) (snd p) s ++ blk B t (s + snd p)
+  end.
+
+Lemma blocks_blk {T} (B : Z -> nat -> nat -> list T) rl : forall s,
+  blocks (length rl) (fun o => B (getz (map fst rl) o) (getn (map snd rl) o)
+                                 (s + nsum (firstn o (map snd rl)))) = blk B rl s.
+Proof.
+  induction rl as [|p t IH]; intros s; [reflexivity|].
+  unfold blocks in *. cbn [length seq map concat blk]. rewrite map_seq_shift.
+  unfold getz at 1, getn at 1. cbn [nth firstn nsum fold_right]. rewrite Nat.add_0_r. f_equal.
+  rewrite <- IH. f_equal. apply map_ext. intros o. unfold getz, getn. cbn [nth firstn].
+  change (nsum (snd p :: firstn o (map snd t))) with (snd p + nsum (firstn o (map snd t))).
+  f_equal. unfold nsum. lia.
+Qed.
+
+Lemma all_pairs_app l1 l2 : (forall p q, In p l1 -> In q l2 -> fst q <> fst p) ->
+  all_pairs_from (l1 ++ l2) = all_pairs_from l1 ++ all_pairs_from l2.
+Proof.
+  induction l1 as [|p l1 IH]; intros HD; [reflexivity|].
+  cbn [app all_pairs_from]. rewrite filter_app.
+  rewrite (filter_none _ l2).
+  - rewrite app_nil_r, IH, app_assoc; [reflexivity|].
+    intros p' q Hp' Hq. apply HD; [right; exact Hp'|exact Hq].
+  - apply Forall_forall. intros q Hq. apply Z.eqb_neq. apply HD; [left; reflexivity|exact Hq].
+Qed.
+
+Lemma all_pairs_group x ms :
+  all_pairs_from (combine (repeat x (length ms)) ms) =
+  map (fun ab => (x, nth (fst ab) ms 0%Z, nth (snd ab) ms 0%Z)) (pos_pairs (length ms)).
+Proof.
+  rewrite (all_pairs_positions _ (x, 0%Z)).
+  assert (forall k, nth k (combine (repeat x (length ms)) ms) (x, 0%Z) = (x, nth k ms 0%Z)) as HN.
+  { intros k. rewrite combine_nth by apply repeat_length. rewrite nth_repeat. reflexivity. }
+  rewrite combine_length, repeat_length, Nat.min_id.
+  rewrite filter_all.
+  - apply map_ext. intros ab. rewrite !HN. reflexivity.
+  - apply Forall_forall. intros ab _. rewrite !HN. cbn [fst]. apply Z.eqb_refl.
+Qed.
+
+Lemma expand_In rl z : In z (expand rl) -> In z (map fst rl).
+Proof.
+  induction rl as [|p t IH]; intros H; [contradiction|]. rewrite expand_cons in H.
+  apply in_app_or in H. destruct H as [H|H].
+  - apply repeat_spec in H. left. symmetry. exact H.
+  - right. apply IH. exact H.
+Qed.
+
+Lemma expand_length rl : length (expand rl) = nsum (map snd rl).
+Proof.
+  induction rl as [|p t IH]; [reflexivity|]. rewrite expand_cons, app_length, repeat_length, IH. reflexivity.
+Qed.
+
+Lemma nth_skipn_c18 {A} n : forall (l : list A) k d, nth k (skipn n l) d = nth (n + k) l d.
+Proof.
+  induction n as [|n IH]; intros l k d; [reflexivity|]. destruct l as [|a l]; [destruct k; reflexivity|].
+  cbn [skipn Nat.add nth]. apply IH.
+Qed.
+
+Lemma nth_firstn_c18 {A} n : forall (l : list A) k d, k < n -> nth k (firstn n l) d = nth k l d.
+Proof.
+  induction n as [|n IH]; intros l k d Hk; [lia|]. destruct l as [|a l]; [reflexivity|].
+  destruct k as [|k]; [reflexivity|]. cbn [firstn nth]. apply IH. lia.
+Qed.
+
+Lemma combine_app_c18 {A B} (a1 a2 : list A) (b1 b2 : list B) : length a1 = length b1 ->
+  combine (a1 ++ a2) (b1 ++ b2) = combine a1 b1 ++ combine a2 b2.
+Proof. intros H. rewrite !combine_map2. apply map2_app. exact H. Qed.
+
+Definition out_block (j1 : list Z) (x : Z) (n s : nat) : list (Z * Z * Z) :=
+  map (fun ab => (x, getz j1 (s + fst ab), getz j1 (s + snd ab))) (pos_pairs n).
+
+Lemma ref_blk j1 rl : StronglySorted Z.lt (map fst rl) ->
+  forall (js : list Z) s, length js = nsum (map snd rl) ->
+  (forall k, k < length js -> nth k js 0%Z = getz j1 (s + k)) ->
+  all_pairs_from (combine (expand rl) js) = blk (out_block j1) rl s.
+Proof.
+  induction rl as [|[x n] t IH]; intros HS js s HL Hjs; [reflexivity|].
+  cbn [map fst snd] in HS, HL. change (nsum (n :: map snd t)) with (n + nsum (map snd t)) in HL.
+  inversion HS as [|x' l' HS' HF]; subst.
+  rewrite expand_cons. cbn [fst snd blk].
+  rewrite <- (firstn_skipn n js) at 1.
+  assert (length (firstn n js) = n) as HLf by (apply firstn_length_le; lia).
+  rewrite combine_app_c18 by (rewrite repeat_length, HLf; reflexivity).
+  rewrite all_pairs_app.
+  - f_equal.
+    + rewrite <- HLf at 1. rewrite all_pairs_group, HLf. unfold out_block.
+      apply map_ext_in. intros [a b] Hab. apply (proj2 (pos_pairs_once n)) in Hab. cbn [fst snd].
+      rewrite !nth_firstn_c18 by lia. rewrite !Hjs by lia. reflexivity.
+    + apply IH; [exact HS'|rewrite skipn_length; lia|].
+      intros k Hk. rewrite skipn_length in Hk. rewrite nth_skipn_c18, Hjs by lia. f_equal. lia.
+  - intros [p1 p2] [q1 q2] Hp Hq. apply in_combine_l in Hp, Hq. apply repeat_spec in Hp.
+    apply expand_In in Hq. rewrite Forall_forall in HF. specialize (HF q1 Hq). cbn [fst]. lia.
+Qed.
+
+(* ---------------------------------------------------------------- the model, stage by stage *)
+Definition pw_col (N src_idx : list nat) (j1 : list Z) (d_r d_r_idx U v : list nat) : list Z :=
+  let unique_dest_len := map tri U in
+  let i_sparse := concat (map2 (fun c dlen => repeat c dlen) U unique_dest_len) in
+  let j_sparse := concat (map (fun dlen => seq 0 dlen) unique_dest_len) in
+  map (getz j1) (map2 Nat.add (map (getn src_idx) d_r)
+                      (map2 (sparse_get i_sparse j_sparse v) (map (getn N) d_r) d_r_idx)).
+
+Definition pw_tail (X : list Z) (N : list nat) (j1 : list Z) : list Z * list Z * list Z :=
+  let src_idx := 0 :: ncumsum (removelast N) in
+  let dest_count := map tri N in
+  let dest_idx := 0 :: ncumsum dest_count in
+  let dest_size := last dest_idx 0 in
+  let not_empty := compress (nadj_diff dest_idx) (seq 0 (length dest_idx - 1)) in
+  let d_r := ncumsum (diff_marks dest_idx not_empty dest_size) in
+  let d_r_idx := map2 Nat.sub (seq 0 (length d_r)) (map (getn dest_idx) d_r) in
+  let U := usizes N in
+  (map (getz X) d_r,
+   pw_col N src_idx j1 d_r d_r_idx U
+     (concat (map (fun n => concat (map (fun x => repeat x (n - x - 1)) (seq 0 n))) U)),
+   pw_col N src_idx j1 d_r d_r_idx U
+     (concat (map (fun n => concat (map (fun x => seq (x + 1) (n - (x + 1))) (seq 0 n))) U))).
+
+Definition pairwise_body (i1 j1 : list Z) : list Z * list Z * list Z :=
+  pw_tail (zunique_sorted (zsort i1)) (bincount (ncumsum (0 :: map b2n (adj_diff i1))) 0) j1.
+
+Lemma pairwise_unfold i j :
+  pairwise_permutations i j =
+  match i with
+  | [] => ([], [], [])
+  | _ => pairwise_body (map (getz i) (lexsort j i)) (map (getz j) (lexsort j i))
+  end.
+Proof. reflexivity. Qed.
+
+Lemma getn_map_tri N o : o < length N -> getn (map tri N) o = tri (getn N o).
+Proof. intros H. unfold getn. apply nth_map_lt. exact H. Qed.
+
+Lemma getn_In N o : o < length N -> In (getn N o) N.
+Proof. intros H. unfold getn. apply nth_In. exact H. Qed.
+
+Lemma sparse_col_eq (V : nat -> list nat) N :
+  (forall c, length (V c) = tri c) ->
+  map2 (sparse_get (concat (map (fun c => repeat c (tri c)) (usizes N)))
+                   (concat (map (fun c => seq 0 (tri c)) (usizes N)))
+                   (concat (map V (usizes N))))
+       (blocks (length N) (fun o => repeat (getn N o) (getn (map tri N) o)))
+       (blocks (length N) (fun o => seq 0 (getn (map tri N) o)))
+  = blocks (length N) (fun o => V (getn N o)).
+Proof.
+  intros HV. rewrite map2_blocks_l by (intros o _; apply seq_length).
+  apply blocks_ext. intros o Ho. rewrite getn_map_tri by exact Ho. rewrite <- (HV (getn N o)).
+  rewrite <- (map_seq_nth (V (getn N o)) 0) at 2. apply map_ext_in. intros t Ht. apply in_seq in Ht.
+  apply sparse_lookup; [exact HV|apply usizes_NoDup|apply usizes_In, getn_In; exact Ho|].
+  rewrite <- (HV (getn N o)). lia.
+Qed.
+
+Lemma pw_col_eq (V : nat -> list nat) N src_idx j1 :
+  (forall c, length (V c) = tri c) ->
+  (forall g, g < length N -> getn src_idx g = nsum (firstn g N)) ->
+  pw_col N src_idx j1
+    (blocks (length N) (fun o => repeat o (getn (map tri N) o)))
+    (blocks (length N) (fun o => seq 0 (getn (map tri N) o)))
+    (usizes N) (concat (map V (usizes N)))
+  = blocks (length N) (fun o => map (fun t => getz j1 (nsum (firstn o N) + t)) (V (getn N o))).
+Proof.
+  intros HV Hsrc. unfold pw_col. cbv zeta.
+  rewrite map2_map_r, map_map, !map_blocks.
+  rewrite sparse_col_eq by exact HV.
+  rewrite map2_blocks_l by (intros o Ho; rewrite HV, getn_map_tri by exact Ho; reflexivity).
+  rewrite map_blocks_gen. apply blocks_ext. intros o Ho. rewrite map_map, Hsrc by exact Ho. reflexivity.
+Qed.
+
+Lemma length_blocks_D {A} (F : nat -> list A) D :
+  (forall o, o < length D -> length (F o) = getn D o) -> length (blocks (length D) F) = nsum D.
+Proof.
+  intros H. unfold blocks. rewrite length_concat_map.
+  rewrite (map_ext_in _ (getn D)) by (intros o Ho; apply in_seq in Ho; apply H; lia).
+  rewrite map_getn_seq. reflexivity.
+Qed.
+
+Lemma combine3_block {A} (x : Z) m (f g : A -> Z) P : m = length P ->
+  combine (combine (repeat x m) (map f P)) (map g P) = map (fun ab => (x, f ab, g ab)) P.
+Proof.
+  intros ->. induction P as [|a P IH]; [reflexivity|]. cbn [length repeat map combine]. rewrite IH. reflexivity.
+Qed.
+
+Lemma pw_tail_eq X N j1 :
+  let '(di, d1, d2) := pw_tail X N j1 in
+  length di = length d1 /\ length d1 = length d2 /\
+  combine (combine di d1) d2 =
+  blocks (length N) (fun o => out_block j1 (getz X o) (getn N o) (0 + nsum (firstn o N))).
+Proof.
+  unfold pw_tail. cbv zeta.
+  rewrite d_r_eq. rewrite d_r_idx_eq by (intros k Hk; apply cumsum0_nth; lia).
+  rewrite (map_length tri N).
+  rewrite (map_ext _ _ v_j1_pairs), (map_ext _ _ v_j2_pairs).
+  rewrite !pw_col_eq;
+    try (intros c; rewrite map_length; apply pos_pairs_length);
+    try (intros g Hg; apply src_idx_nth; exact Hg).
+  rewrite map_blocks.
+  assert (length (map tri N) = length N) as HLN by apply map_length.
+  split; [|split].
+  - rewrite <- HLN. rewrite length_blocks_repeat.
+    rewrite length_blocks_D; [reflexivity|].
+    intros o Ho. rewrite HLN in Ho. rewrite !map_length, pos_pairs_length, getn_map_tri by exact Ho. reflexivity.
+  - rewrite <- HLN. rewrite !length_blocks_D; [reflexivity| |];
+    intros o Ho; rewrite HLN in Ho; rewrite !map_length, pos_pairs_length, getn_map_tri by exact Ho; reflexivity.
+  - rewrite combine_blocks.
+    2:{ intros o Ho. rewrite repeat_length, !map_length, pos_pairs_length, getn_map_tri by exact Ho. reflexivity. }
+    rewrite combine_blocks.
+    2:{ intros o Ho. rewrite combine_length, repeat_length, !map_length, pos_pairs_length, getn_map_tri by exact Ho.
+        apply Nat.min_id. }
+    apply blocks_ext. intros o Ho. rewrite !map_map.
+    rewrite combine3_block by (rewrite pos_pairs_length, getn_map_tri by exact Ho; reflexivity).
+    reflexivity.
+Qed.
+
+Lemma pairwise_body_ref i1 j1 : i1 <> [] -> length i1 = length j1 -> StronglySorted Z.le i1 ->
+  let '(di, d1, d2) := pairwise_body i1 j1 in
+  length di = length d1 /\ length d1 = length d2 /\
+  combine (combine di d1) d2 = all_pairs_from (combine i1 j1).
+Proof.
+  intros HN HL HS. unfold pairwise_body.
+  assert (zsort i1 = i1) as Hz.
+  { symmetry. apply sorted_perm_eq; [exact HS|apply zsort_sorted|apply zsort_perm]. }
+  rewrite Hz, zunique_rle.
+  pose proof (expand_rle i1) as HE. pose proof (rle_pos i1) as HP. pose proof (rle_sorted i1 HS) as HSS.
+  remember (rle i1) as rl eqn:Hrl. clear Hrl.
+  assert (rl <> []) as HNr. { intros ->. apply HN. symmetry. exact HE. }
+  assert (Forall (fun c => 0 < c) (map snd rl)) as HPs.
+  { unfold pos_runs in HP. rewrite Forall_forall in *. intros c Hc. apply in_map_iff in Hc.
+    destruct Hc as (p & <- & Hp). apply HP. exact Hp. }
+  assert (ncumsum (0 :: map b2n (adj_diff i1)) = dm_labels 0 (map snd rl)) as Hr.
+  { rewrite <- HE. unfold ncumsum. cbn [ncumsum_from Nat.add]. apply labels_runs; assumption. }
+  rewrite Hr. rewrite bincount_labels; [|intros C; apply HNr; destruct rl; [reflexivity|discriminate]|exact HPs].
+  pose proof (pw_tail_eq (map fst rl) (map snd rl) j1) as HT.
+  destruct (pw_tail (map fst rl) (map snd rl) j1) as [[di d1] d2].
+  destruct HT as (H1 & H2 & H3). split; [exact H1|split; [exact H2|]].
+  rewrite H3, map_length, (blocks_blk (out_block j1) rl 0).
+  symmetry. rewrite <- HE. apply ref_blk; [exact HSS| |intros k _; reflexivity].
+  rewrite <- HL, <- HE. apply expand_length.
+Qed.
+
+(* ---------------------------------------------------------------- the sorted rows *)
+Lemma combine_map_map {A B C} (f : A -> B) (g : A -> C) l :
+  combine (map f l) (map g l) = map (fun x => (f x, g x)) l.
+Proof. induction l as [|a l IH]; [reflexivity|]. cbn [map combine]. rewrite IH. reflexivity. Qed.
+
+Lemma sorted_columns i j : length i = length j ->
+  map (getz i) (lexsort j i) = map t_k1 (tsort (combine (combine i j) (seq 0 (length i)))) /\
+  map (getz j) (lexsort j i) = map t_k2 (tsort (combine (combine i j) (seq 0 (length i)))).
+Proof.
+  intros HL. pose proof (lexsort_triples j i HL) as F. rewrite Forall_forall in F.
+  unfold lexsort. rewrite !map_map. split; apply map_ext_in; intros t Ht; destruct (F t Ht) as (E1 & E2 & _);
+    symmetry; assumption.
+Qed.
+
+Theorem pairwise_model_ref : forall i j : list Z, length i = length j ->
+  let '(di, d1, d2) := pairwise_permutations i j in
+  length di = length d1 /\ length d1 = length d2 /\
+  combine (combine di d1) d2 = pairwise_ref i j.
+Proof.
+  intros i j HL. rewrite pairwise_unfold.
+  destruct i as [|i0 i'] eqn:Hi; [destruct j; [|discriminate]; repeat split|]. rewrite <- Hi in *.
+  destruct (sorted_columns i j HL) as (E1 & E2). rewrite E1, E2.
+  set (T := tsort (combine (combine i j) (seq 0 (length i)))).
+  assert (length T = length i) as HLT.
+  { unfold T. transitivity (length (combine (combine i j) (seq 0 (length i)))).
+    - symmetry. exact (Permutation_length (tsort_perm (combine (combine i j) (seq 0 (length i))))).
+    - rewrite !combine_length, seq_length. lia. }
+  pose proof (pairwise_body_ref (map t_k1 T) (map t_k2 T)) as HB.
+  destruct (pairwise_body (map t_k1 T) (map t_k2 T)) as [[di d1] d2].
+  replace (pairwise_ref i j) with (all_pairs_from (combine (map t_k1 T) (map t_k2 T))).
+  - apply HB.
+    + intros C. apply (f_equal (@length Z)) in C. rewrite map_length, HLT, Hi in C. discriminate.
+    + rewrite !map_length. reflexivity.
+    + eapply StronglySorted_map; [|apply tsort_sorted]. intros x y. apply tleb_k1.
+  - unfold pairwise_ref, sorted_rows. fold T. rewrite combine_map_map. f_equal.
+    apply map_ext. intros [[a b] k]. reflexivity.
+Qed.
+
+Theorem pairwise_once : forall i j : list Z, length i = length j ->
+  let '(di, d1, d2) := pairwise_permutations i j in
+  let rows := sorted_rows i j in
+  Permutation rows (combine i j) /\
+  combine (combine di d1) d2 =
+    map (fun ab => (fst (nth (fst ab) rows (0,0)%Z), snd (nth (fst ab) rows (0,0)%Z), snd (nth (snd ab) rows (0,0)%Z)))
+        (filter (fun ab => (fst (nth (snd ab) rows (0,0)%Z) =? fst (nth (fst ab) rows (0,0)%Z))%Z) (pos_pairs (length rows))).
+Proof.
+  intros i j HL. pose proof (pairwise_model_ref i j HL) as HM.
+  destruct (pairwise_permutations i j) as [[di d1] d2]. destruct HM as (_ & _ & HM). cbv zeta.
+  split; [apply sorted_rows_perm; exact HL|].
+  rewrite HM. unfold pairwise_ref. apply all_pairs_positions.
+Qed.
+
+(* ---------------------------------------------------------------- examples *)
+Example pairwise_ex1 :
+  pairwise_permutations [1;1;1;2;2;2;2]%Z [1;2;3;1;4;5;6]%Z =
+  ([1;1;1;2;2;2;2;2;2]%Z, [1;1;2;1;1;1;4;4;5]%Z, [2;3;3;4;5;6;5;6;6]%Z).
+Proof. vm_compute. reflexivity. Qed.
+
+Example pairwise_ex1_ref :
+  let '(di, d1, d2) := pairwise_permutations [1;1;1;2;2;2;2]%Z [1;2;3;1;4;5;6]%Z in
+  combine (combine di d1) d2 = pairwise_ref [1;1;1;2;2;2;2]%Z [1;2;3;1;4;5;6]%Z.
+Proof. vm_compute. reflexivity. Qed.
+
+(* unsorted input, a singleton group (label 7), a negative label, a duplicate member *)
+Example pairwise_ex2 :
+  pairwise_permutations [3;-1;7;3;-1;3]%Z [5;2;9;4;2;6]%Z =
+  ([-1;3;3;3]%Z, [2;4;4;5]%Z, [2;5;6;6]%Z).
+Proof. vm_compute. reflexivity. Qed.
+
+Example pairwise_ex2_ref :
+  let '(di, d1, d2) := pairwise_permutations [3;-1;7;3;-1;3]%Z [5;2;9;4;2;6]%Z in
+  combine (combine di d1) d2 = pairwise_ref [3;-1;7;3;-1;3]%Z [5;2;9;4;2;6]%Z.
+Proof. vm_compute. reflexivity. Qed.
+
+Print Assumptions pairwise_model_ref.
+Print Assumptions pairwise_once.
+Print Assumptions pos_pairs_once.
+Print Assumptions all_pairs_positions.
